@@ -24,7 +24,7 @@ EXTRA = {'C01-m1': ['C04', 'C08'], 'C01-m2': ['C02', 'C09'], 'C02-m3': ['C09'], 
          'C13-m3': ['C10'], 'C14-m1': ['C11'], 'C16-m3': ['C11'], 'C18-m3': ['C20'],
          'C01c-m3': ['C08'], 'C02c-m3': ['C01', 'C07', 'C09'], 'C02c-m1': ['C01', 'C08'], 'C06c-m3': ['C12'],
          'C10c-m3': ['C11'], 'C17c-m3': ['C10'], 'C09-m2': ['C07', 'C01'], 'C14c-m2': ['C11'], 'C18c-m3': ['C20'],
-         'C20c-m3': ['C18'], 'C05c-m3': ['C19'], 'C07c-m3': ['C02'], 'C05c-m1': ['C11'], 'C05c-m2': ['C10'], 'C07c-m2': ['C11'], 'C11c-m3': ['C07']}
+         'C20c-m3': ['C18'], 'C05c-m3': ['C19'], 'C07c-m3': ['C02'], 'C05c-m1': ['C11'], 'C14c-m1': ['C08'], 'C05c-m2': ['C10'], 'C07c-m2': ['C11'], 'C11c-m3': ['C07']}
 
 
 def head():
